@@ -314,6 +314,7 @@ func c11Cases(seed int64, tier string) []*c11Case {
 	pool := c10Pool()
 	var progs []*c10Prog
 	progs = append(progs, pool...)
+	progs = append(progs, c10StageModelledPool()...)
 	for _, p := range c10FailingPool() { // failing lazy constants; programs with a shared list ARGUMENT are out of scope (integer arguments)
 		if p.ListArg == "" && strings.HasSuffix(p.Name, "-append") {
 			progs = append(progs, p)
